@@ -311,6 +311,18 @@ impl StoreFor<Annotation> for AnnotationStore {
     }
 }
 
+/// Removes later duplicates, keeping the order of first occurrence
+fn dedup_unsorted<T: PartialEq>(items: &mut Vec<T>) {
+    let mut i = 0;
+    while i < items.len() {
+        if items[..i].contains(&items[i]) {
+            items.remove(i);
+        } else {
+            i += 1;
+        }
+    }
+}
+
 impl private::StoreCallbacks<Annotation> for AnnotationStore {
     fn inserted(&mut self, handle: AnnotationHandle) -> Result<(), StamError> {
         // called after the item is inserted in the store
@@ -446,6 +458,24 @@ impl private::StoreCallbacks<Annotation> for AnnotationStore {
                     }
                     _ => {} //this matches the complex selectors, they will be returned first and then their children, we can therefore just ignore them
                 };
+            }
+
+            // a complex selector may name the same target more than once (e.g. two parts of
+            // one annotation): the annotation is indexed once under each of its targets
+            dedup_unsorted(&mut target_annotations);
+            dedup_unsorted(&mut target_meta_resources);
+            dedup_unsorted(&mut target_meta_datasets);
+            dedup_unsorted(&mut target_meta_keys);
+            dedup_unsorted(&mut target_meta_data);
+            {
+                let mut i = 0;
+                while i < extend_textrelationmap.len() {
+                    if extend_textrelationmap[..i].contains(&extend_textrelationmap[i]) {
+                        extend_textrelationmap.remove(i);
+                    } else {
+                        i += 1;
+                    }
+                }
             }
 
             if self.config.annotation_annotation_map {
